@@ -641,7 +641,16 @@ class FunctionDefinition(TypedExpression):
             self.output and getattr(self.output, "has_scope", lambda: False)()
         )
         output_multiline = False
-        if self.output is not None:
+        output_inline_preview: str | None = None
+        if (
+            self.output is not None
+            and self.breaks_after_semicolon is None
+            and not output_has_scope
+            and args_are_formals
+        ):
+            # Only the automatic layout decision needs to know whether the body
+            # spans several lines; rendering it here unconditionally doubled the
+            # work at every nesting level of curried functions.
             output_inline_preview = self.output.rebuild(indent=base_indent, inline=True)
             output_multiline = "\n" in output_inline_preview
 
@@ -659,11 +668,12 @@ class FunctionDefinition(TypedExpression):
         )
         line_break = "\n" * breaks_after_semicolon
         output_inline = line_break == ""
-        output_str = (
-            self.output.rebuild(indent=base_indent, inline=output_inline)
-            if self.output
-            else "{ }"
-        )
+        if not self.output:
+            output_str = "{ }"
+        elif output_inline and output_inline_preview is not None:
+            output_str = output_inline_preview
+        else:
+            output_str = self.output.rebuild(indent=base_indent, inline=output_inline)
         return line_break, output_str
 
     def _format_colon_split(self, *, base_indent: int, line_break: str) -> str:
